@@ -539,6 +539,26 @@ func (c *Ctx) run(s *State) {
 			c.npaths++
 			return
 		default:
+			// opt cutbefore <callee>: the path ends right BEFORE the first direct call of <callee>; the postconditions (which
+			// must not mention results) are checked in the state reached there: "everything up to this call establishes them"
+			if cut := c.fc.Opts["cutbefore"]; cut != "" && len(s.frames) == 1 {
+				if call, ok := in.(*ssa.Call); ok {
+					name := ""
+					if callee, ok := call.Common().Value.(*ssa.Function); ok {
+						name = relFuncName(callee)
+					} else if call.Common().IsInvoke() {
+						name = "(" + typeName(call.Common().Value.Type()) + ")." + call.Common().Method.Name()
+					}
+					for _, want := range strings.Split(cut, "|") {
+						if name != "" && name == strings.TrimSpace(want) {
+							c.assumptions["opt cutbefore: function "+c.name+" is only examined up to (not including) its first call of "+cut] = true
+							c.cutReturn(s, fr)
+							c.npaths++
+							return
+						}
+					}
+				}
+			}
 			forked := c.step(s, fr, in)
 			// opt cutafter <callee>: the path ends right after the first direct call of <callee>; the postconditions
 			// (which must not mention results) are checked there. Used for obligations about an argument of that call
@@ -1082,7 +1102,9 @@ func (c *Ctx) cutReturn(s *State, fr *Frame) {
 	if fr.idx > 0 {
 		pos = fr.block.Instrs[fr.idx-1].Pos()
 	}
-	c.assumptions["opt cutafter: function "+c.name+" is only examined up to its first call of "+c.fc.Opts["cutafter"]] = true
+	if c.fc.Opts["cutafter"] != "" {
+		c.assumptions["opt cutafter: function "+c.name+" is only examined up to its first call of "+c.fc.Opts["cutafter"]] = true
+	}
 	for i, e := range c.fc.Ensures {
 		label := e.Label
 		if label == "" {
